@@ -153,6 +153,35 @@ func (r *caseRun) dumpLines(d nject.VerifDump) {
 		}
 		return strings.Join(out, ",")
 	}
+	detail := func(ds []nject.VerifDep) string {
+		if len(ds) == 0 {
+			return "-"
+		}
+		type ent struct {
+			flow, ty int
+			s        string
+		}
+		var es []ent
+		for _, e := range ds {
+			c := codesOf([]reflect.Type{e.Type})
+			ty := -1
+			if len(c) == 1 {
+				ty = c[0]
+			}
+			es = append(es, ent{e.Flow, ty, fmt.Sprintf("%d/%d>%s", e.Flow, ty, depList(e.IDs))})
+		}
+		sort.Slice(es, func(i, j int) bool {
+			if es[i].flow != es[j].flow {
+				return es[i].flow < es[j].flow
+			}
+			return es[i].ty < es[j].ty
+		})
+		out := make([]string, len(es))
+		for i, e := range es {
+			out[i] = e.s
+		}
+		return strings.Join(out, ";")
+	}
 	for pos, f := range d.Funcs {
 		idx := r.idxOf(f)
 		ei := 0
@@ -181,12 +210,12 @@ func (r *caseRun) dumpLines(d nject.VerifDump) {
 		if len(flags) > 0 {
 			fl = strings.Join(flags, ",")
 		}
-		r.logf("f %d id=%d class=%s group=%s inc=%d ret=%s out=%s in=%s recv=%s byp=%s drm=%s urm=%s brm=%s zs=%s zi=%s ei=%d flags=%s uses=%s usedby=%s origin=%s index=%d why=%s",
+		r.logf("f %d id=%d class=%s group=%s inc=%d ret=%s out=%s in=%s recv=%s byp=%s drm=%s urm=%s brm=%s zs=%s zi=%s ei=%d flags=%s uses=%s usedby=%s ud=%s ubd=%s origin=%s index=%d why=%s",
 			pos, idx, f.Class, f.Group, b2i(f.Include),
 			fmtCodes(codesOf(f.Flows[0])), fmtCodes(codesOf(f.Flows[1])), fmtCodes(codesOf(f.Flows[2])),
 			fmtCodes(codesOf(f.Flows[3])), fmtCodes(codesOf(f.Flows[4])),
 			fmtRmap(r, f.DownRmap), fmtRmap(r, f.UpRmap), fmtRmap(r, f.BypassRmap),
-			fmtCodes(sortedCodes(f.MustZeroSkipped)), fmtCodes(sortedCodes(f.MustZeroInner)), ei, fl, depList(f.Uses), depList(f.UsedBy),
+			fmtCodes(sortedCodes(f.MustZeroSkipped)), fmtCodes(sortedCodes(f.MustZeroInner)), ei, fl, depList(f.Uses), depList(f.UsedBy), detail(f.UsesDetail), detail(f.UsedByDetail),
 			strings.ReplaceAll(orDash(f.Origin), " ", "_"), f.Index, strings.ReplaceAll(orDash(oneLine(f.WhyIncluded)+"|"+clipReason(f.CannotInclude)), " ", "_"))
 	}
 	if d.Stage == "S7" {
